@@ -70,6 +70,9 @@ structure Cfg where
   /-- design/fixes/C12-failed-write.patch applied (`client_update_value` restores the previous value
       when the setter callback raises; without it the written value stays stored and nobody is told) -/
   fixRaise : Bool := true
+  /-- design/fixes/C12-stale-handoff.patch applied (a hand-off from a worker thread whose captured value
+      is no longer the value of the characteristic is dropped by the loop) -/
+  fixHand : Bool := true
 
 /-! ### dict-like association list (the per-connection `_event_queue`) -/
 
@@ -382,7 +385,11 @@ def appSetWorker (c : Cfg) (s : St) (x : Cid) (v : Val) : St :=
 def handOff (c : Cfg) (s : St) : St :=
   match s.handoffs with
   | [] => s
-  | (x, v) :: rest => publish c { s with handoffs := rest } x v none
+  | (x, v) :: rest =>
+    -- `_async_send_deferred_event`: overtaken by a newer change (which publishes itself) -> dropped;
+    -- characteristics that hold no value (always-null: every event is an occurrence) are never dropped
+    if c.fixHand ∧ s.value x ≠ none ∧ s.value x ≠ some v then { s with handoffs := rest }
+    else publish c { s with handoffs := rest } x v none
 
 /-- `_notify`: the `ev` member of a write query -/
 def putSub (c : Cfg) (s : St) (p : ObjId) (x : Cid) (ev : Option Bool) : St :=
